@@ -718,6 +718,58 @@ theorem isrange_empty_iff (l : RS) (st en : Int) (hwf : WF l) (h : en ≤ st) :
     simp [isrange]; omega
   | _ :: _ :: _, _ => simp [isrange]
 
+/-! ### size -/
+
+/-- The integers of one range, in increasing order. -/
+def seg (r : Rg) : List Int := (List.range (r.e - r.s).toNat).map (fun (i : Nat) => r.s + (i : Int))
+
+/-- All elements of the set, enumerated range by range. -/
+def elems : RS → List Int
+  | [] => []
+  | r :: rest => seg r ++ elems rest
+
+theorem mem_seg (r : Rg) (x : Int) : x ∈ seg r ↔ (r.s ≤ x ∧ x < r.e) := by
+  simp only [seg, List.mem_map, List.mem_range]
+  constructor
+  · rintro ⟨i, hi, rfl⟩; omega
+  · intro h; exact ⟨(x - r.s).toNat, by omega, by omega⟩
+
+theorem seg_sorted (r : Rg) : (seg r).Pairwise (· < ·) := by
+  simp only [seg, List.pairwise_map]
+  exact List.Pairwise.imp (fun h => by omega) List.pairwise_lt_range
+
+theorem elems_chain (l : RS) : ∀ b, Chain b l →
+    ((elems l).length : Int) = sizeZ l ∧ (∀ x, x ∈ elems l ↔ Mem l x) ∧ (elems l).Pairwise (· < ·) := by
+  induction l with
+  | nil => intro b _; simp [elems, sizeZ]
+  | cons r rest ih =>
+    intro b hc
+    obtain ⟨h1, h2, h3⟩ := hc
+    obtain ⟨i1, i2, i3⟩ := ih r.e h3
+    refine ⟨?_, ?_, ?_⟩
+    · simp only [elems, List.length_append, sizeZ, seg, List.length_map, List.length_range]
+      push_cast; omega
+    · intro x; simp only [elems, List.mem_append, mem_seg, mem_cons, i2 x]
+    · simp only [elems]
+      rw [List.pairwise_append]
+      refine ⟨seg_sorted r, i3, ?_⟩
+      intro a ha c hc'
+      have := (mem_seg r a).1 ha
+      have := chain_lt_of_mem h3 ((i2 c).1 hc')
+      omega
+
+/-- **size**: the exact sum of the range sizes is the number of integers in the set — `elems l`
+enumerates the set strictly increasingly (hence without repetition) and has that length. -/
+theorem size_card (l : RS) (hwf : WF l) :
+    ((elems l).length : Int) = sizeZ l ∧ (∀ x, x ∈ elems l ↔ Mem l x) ∧ (elems l).Pairwise (· < ·) := by
+  obtain ⟨b, hb⟩ := hwf; exact elems_chain l b hb
+
+/-- `size()` is that number whenever it fits int64 (Go's running sum wraps otherwise). -/
+theorem size_eq_card (l : RS) (hwf : WF l) (h : sizeZ l ≤ 9223372036854775807) :
+    size l = ((elems l).length : Int) := by
+  have h0 := (size_card l hwf).1
+  unfold size; rw [wrap64_id _ (by omega) h]; exact h0.symm
+
 /-! ### all histories -/
 
 /-- Contract of one operation in state `l`: a range has `start ≤ end`; the excluded region of the
